@@ -64,14 +64,14 @@ PROPS["C15"] = {
 }
 
 PROPS["C19"] = {
-    "props": ["OsmVerif.Props.C19"],
+    "props": ["OsmVerif.Props.C19", "OsmVerif.Props.C19b"],
     "gens": ["Replication"],
     "timeout": 1800,
-    "required_theorems": ["search_returns_first_at_or_after", "search_returns_first_partial", "search_future_returns_current",
+    "required_theorems": ["findBound_fuel_stable", "search_fuel_sufficient", "findInRange_fuel_stable", "search_returns_first_at_or_after", "search_returns_first_partial", "search_future_returns_current",
                           "findBound_ok", "findInRangeL_fst", "findInRangeL_requests", "findInRangeL_requests_gapfree",
                           "formats_eq_planet_layout", "seqPath_layout", "seqPath_injective", "changeset_seq_off_by_one", "findInRange_requests_sum", "search_requests_sum", "findBound_requests", "search_requests_sum_min_missing", "clog_spec"],
     "technique": "Lean 4 theorems (induction on fuel with the interval invariant a < t <= b) about a hand-written executable model of searchTimestamp/findBound/findInRange that also returns the request log; tied by comparing result and exact requested URL sequence with the real code behind a fake transport; URL recipes/formats extracted from the source and proved equal to the pinned planet layout",
-    "level_text": "Machine-checked proof, for every availability pattern with increasing timestamps and every query time, that the model of the state search returns the first available state written at or after t when the minimum state is available (any gaps above it), the newest state when t is later than all, and - when the minimum is missing - an available state at or after t which is the first one whenever findBound's ascent ends on a state not after t; termination with an explicit request bound ((hi-lo)^2 in general, 2^k <= 2(w-1) i.e. logarithmic on gap-free ranges); three-level zero-padded paths injective below 10^9; changeset off-by-one; source URL recipes = planet layout. the binary search between the bounds issues at most ceil(log2(range)) + 3*(missing files between the bounds) + 1 requests - a SUM, for every availability pattern, by a potential argument (each run of missing files is stepped over at most three times) - and the whole lookup at most that + 2 when the minimum state exists. when the minimum state is missing, the requests of findBound's ascent that hit an existing file are at most ceil(log2 cur) + (its requests that hit a missing file) + 2, and the whole lookup at most 2*ceil(log2 cur) + 2*(missing-file requests of the ascent) + 3*(missing files between the bounds found) + 5 - sums throughout. PARTIAL: only the sparse-low-end answer (a later state although earlier ones exist below it) - the recorded known finding.",
+    "level_text": "Machine-checked proof, for every availability pattern with increasing timestamps and every query time, that the model of the state search returns the first available state written at or after t when the minimum state is available (any gaps above it), the newest state when t is later than all, and - when the minimum is missing - an available state at or after t which is the first one whenever findBound's ascent ends on a state not after t; termination: the fuel arguments of the model are never the reason for an answer - every continuing iteration of findBound's ascent lowers upper^2 + (upper - lowerID) and every continuing iteration of the binary search narrows hi - lo, so any fuel above those gives the same result (findBound_fuel_stable, search_fuel_sufficient, findInRange_fuel_stable) and the real, fuel-less loops end with the model's answer - with an explicit request bound ((hi-lo)^2 in general, 2^k <= 2(w-1) i.e. logarithmic on gap-free ranges); three-level zero-padded paths injective below 10^9; changeset off-by-one; source URL recipes = planet layout. the binary search between the bounds issues at most ceil(log2(range)) + 3*(missing files between the bounds) + 1 requests - a SUM, for every availability pattern, by a potential argument (each run of missing files is stepped over at most three times) - and the whole lookup at most that + 2 when the minimum state exists. when the minimum state is missing, the requests of findBound's ascent that hit an existing file are at most ceil(log2 cur) + (its requests that hit a missing file) + 2, and the whole lookup at most 2*ceil(log2 cur) + 2*(missing-file requests of the ascent) + 3*(missing files between the bounds found) + 5 - sums throughout. PARTIAL: only the sparse-low-end answer (a later state although earlier ones exist below it) - the recorded known finding.",
     "level_note": "Trusted: Lean kernel; correspondence harness with a fake http.RoundTripper (requested URL sequence and result compared exactly); time.Parse/Format, fmt.Sprintf %03d, net/http modelled not verified.",
     "design_ref": "DESIGN.md §5 C19",
     "trusted_base": ["model Model/Search.lean is hand-written (of the repaired code); tie = result and exact request sequence vs the real code",
